@@ -1,9 +1,9 @@
-"""C01 — decided by PlMachine/PlExpr (TLA+) over generated program families: hostile,control."""
+"""C01 — decided by PlMachine/PlExpr (TLA+) over generated program families: hostile,control,builtins,extract."""
 from lib import gen
 from checks import machine
 
 LEVEL = "model_checking"
-FAMILIES = "hostile,control".split(",")
+FAMILIES = "hostile,control,builtins,extract".split(",")
 
 
 def run(ck):
